@@ -252,8 +252,25 @@ func nextRangeIndexArgument(cmd string, name string, args Arguments) (int, error
 
 func nextRangeScoreIndexArgument(cmd string, name string, args Arguments) (float64, bool, error) {
 	str, err := args.NextString()
-	if err != nil || len(str) == 0 {
+	if err != nil {
 		return 0, false, newMissingArgumentError(cmd, name, err)
+	}
+	return rangeScoreArgument(cmd, name, str)
+}
+
+// rangeIndexArgument returns the index which the range argument stands for.
+func rangeIndexArgument(cmd string, name string, str string) (int, error) {
+	idx, err := strconv.Atoi(str)
+	if err != nil {
+		return 0, newInvalidArgumentError(cmd, name, err)
+	}
+	return idx, nil
+}
+
+// rangeScoreArgument returns the score which the range argument stands for, and true if the score is excluded from the range.
+func rangeScoreArgument(cmd string, name string, str string) (float64, bool, error) {
+	if len(str) == 0 {
+		return 0, false, newMissingArgumentError(cmd, name, nil)
 	}
 	offset := 0
 	exclusive := false
